@@ -369,7 +369,13 @@ func r2(w *World, r *Report) {
 	if cm != nil {
 		put := w.findCall(cm, "recv.metaDB.PutLastBlockContext(recv.nextBlockCtx)")
 		st := w.findStore(cm, "recv.lastBlockCtx", "recv.nextBlockCtx")
-		app := w.findCallMatch(cm, mustRe(`^recv\.nextBlockCtx\.SetAppHash\(crypto\.DefaultHash\(\[.*\]\)\)$`))
+		var app []ssa.CallInstruction
+		for _, c := range w.findCallMatch(cm, mustRe(`^recv\.nextBlockCtx\.SetAppHash\(.*\)$`)) {
+			_, a := callRecvArgs(c.Common())
+			if len(a) == 1 && w.valueIs(a[0], func(s string) bool { return strings.HasPrefix(s, "crypto.DefaultHash([") }) {
+				app = append(app, c)
+			}
+		}
 		r.Check(put != nil && st != nil && len(app) == 1 && instrDominates(app[0], put), "R-2", "RigoApp.Commit:persists-installed-context", "the block context that becomes lastBlockCtx (with its app hash) is the one written to the meta store", "Commit does not persist exactly the block context it installs as lastBlockCtx (with the app hash set before)", fnSite(w, cm))
 	}
 	inf := needFn(r, "R-2", w, fref{"node", "RigoApp", "Info"})
@@ -379,7 +385,7 @@ func r2(w *World, r *Report) {
 		// height and hash reported come from it
 		okRet := false
 		for _, fs := range w.fieldStores(inf) {
-			if fs.Field.Name() == "LastBlockAppHash" && strings.Contains(w.Canon(fs.Val), "recv.lastBlockCtx.AppHash()") {
+			if fs.Field.Name() == "LastBlockAppHash" && (strings.Contains(w.Canon(fs.Val), "recv.lastBlockCtx.AppHash()") || strings.Contains(w.Canon(fs.Val), "recv.metaDB.LastBlockContext().AppHash()")) {
 				okRet = true
 			}
 		}
@@ -443,18 +449,56 @@ func r2(w *World, r *Report) {
 	// EVMCtrler: height and root
 	ec := needFn(r, "R-2", w, fref{"ctrlers/vm/evm", "EVMCtrler", "Commit"})
 	if ec != nil {
-		b1 := w.findCallMatch(ec, mustRe(`\.Set\(evm\.lastBlockHeightKey, \[\]byte\(strconv\.FormatInt\(recv\.lastBlockHeight, 10\)\)\)$`))
-		b2 := w.findCallMatch(ec, mustRe(`\.Set\(evm\.blockKey\(recv\.lastBlockHeight\), recv\.lastRootHash\)$`))
-		ws := w.findCallMatch(ec, mustRe(`\.WriteSync\(\)$`))
-		ok := len(b1) == 1 && len(b2) == 1 && len(ws) == 1 && instrDominates(b1[0], ws[0]) && instrDominates(b2[0], ws[0])
-		// the in-memory values are updated before the batch is filled
-		for _, f := range []string{"lastBlockHeight", "lastRootHash"} {
-			for _, fs := range w.fieldStores(ec) {
-				if fs.Field.Name() == f && len(b1) == 1 && !instrDominates(fs.In, b1[0]) {
-					ok = false
+		// on every successful path (helpers expanded): the in-memory height and root are
+		// updated, then both records are put into the batch, then the batch is written synchronously
+		re1 := mustRe(`\.Set\(evm\.lastBlockHeightKey, \[\]byte\(strconv\.FormatInt\(recv\.lastBlockHeight, 10\)\)\)$`)
+		re2 := mustRe(`\.Set\(evm\.blockKey\(recv\.lastBlockHeight\), recv\.lastRootHash\)$`)
+		re3 := mustRe(`\.WriteSync\(\)$`)
+		ev := func(in ssa.Instruction) string {
+			switch x := in.(type) {
+			case ssa.CallInstruction:
+				c := w.canonCall(x.Common(), 0)
+				switch {
+				case re1.MatchString(c):
+					return "B1"
+				case re2.MatchString(c):
+					return "B2"
+				case re3.MatchString(c):
+					return "WS"
+				}
+			case *ssa.Store:
+				if _, isField := x.Addr.(*ssa.FieldAddr); !isField {
+					return "" // e.g. a spilled result slot, which prints as its value
+				}
+				switch w.Canon(x.Addr) {
+				case "recv.lastBlockHeight":
+					return "SH"
+				case "recv.lastRootHash":
+					return "SR"
 				}
 			}
+			return ""
 		}
+		paths, complete := w.enumPaths(ec, w.deadErrEval, ev, 4000)
+		ok := complete
+		nOK := 0
+		for _, p := range paths {
+			if p.Term != "ok" && p.Term != "unknown" {
+				continue
+			}
+			nOK++
+			pos := map[string]int{}
+			cnt := map[string]int{}
+			for i, e := range p.Events {
+				pos[e] = i
+				cnt[e]++
+			}
+			if cnt["B1"] != 1 || cnt["B2"] != 1 || cnt["WS"] != 1 || cnt["SH"] < 1 || cnt["SR"] < 1 ||
+				!(pos["SH"] < pos["B1"] && pos["SR"] < pos["B1"] && pos["SH"] < pos["B2"] && pos["SR"] < pos["B2"] && pos["B1"] < pos["WS"] && pos["B2"] < pos["WS"]) {
+				ok = false
+			}
+		}
+		ok = ok && nOK > 0
 		r.Check(ok, "R-2", "EVMCtrler.Commit:height-and-root", "the last height and the state root kept in memory are written (synchronously) to the EVM meta store", "EVMCtrler.Commit does not persist exactly the height and root it keeps in memory", fnSite(w, ec))
 	}
 	ne := needFn(r, "R-2", w, fref{"ctrlers/vm/evm", "", "NewEVMCtrler"})
@@ -571,8 +615,29 @@ type durableStep struct {
 // order is used: each listed call must dominate the next one.
 func (w *World) durableSteps(fn *ssa.Function, depth int) []durableStep {
 	var out []durableStep
-	if fn == nil || fn.Blocks == nil || depth > 3 {
+	if fn == nil || fn.Blocks == nil || depth > 4 {
 		return nil
+	}
+	// a step is named by the store it writes (owner type + field path), not by the
+	// function the write happens to sit in
+	owner := "?"
+	if fn.Signature.Recv() != nil {
+		if n, ok := deref(fn.Signature.Recv().Type()).(*types.Named); ok {
+			owner = n.Obj().Name()
+		}
+	} else if len(fn.Params) > 0 {
+		if n, ok := deref(fn.Params[0].Type()).(*types.Named); ok {
+			owner = n.Obj().Name()
+		}
+	}
+	ident := func(s string) string {
+		if strings.HasPrefix(s, "recv.") {
+			return owner + "." + strings.TrimPrefix(s, "recv.")
+		}
+		if strings.HasPrefix(s, "p0.") && fn.Signature.Recv() == nil {
+			return owner + "." + strings.TrimPrefix(s, "p0.")
+		}
+		return s
 	}
 	// instructions in dominance order: sort calls by (dominates)
 	var calls []ssa.CallInstruction
@@ -587,14 +652,14 @@ func (w *World) durableSteps(fn *ssa.Function, depth int) []durableStep {
 		cc := c.Common()
 		if api, ok := w.durableWrite(cc); ok {
 			rcv, _ := callRecvArgs(cc)
-			out = append(out, durableStep{w.FName(fn) + ":" + w.Canon(rcv) + "." + api[strings.Index(api, ".")+1:], c})
+			out = append(out, durableStep{ident(w.Canon(rcv)) + "." + api[strings.Index(api, ".")+1:], c})
 			continue
 		}
 		if arms := w.ledgerArms(c); arms != nil {
 			for _, a := range arms {
 				if a.Method == "Commit" {
 					if k, desc := w.ledgerKind(a.Recv); k == "live" {
-						out = append(out, durableStep{w.FName(fn) + ":" + desc + ".Commit", c})
+						out = append(out, durableStep{ident(desc) + ".Commit", c})
 					}
 				}
 			}
@@ -602,16 +667,32 @@ func (w *World) durableSteps(fn *ssa.Function, depth int) []durableStep {
 		}
 		if rn := recvNamed(cc); rn != nil && rn.Obj().Name() == "MetaDB" && strings.HasPrefix(callName(cc), "Put") {
 			rcv, _ := callRecvArgs(cc)
-			out = append(out, durableStep{w.FName(fn) + ":" + w.Canon(rcv) + "." + callName(cc), c})
+			out = append(out, durableStep{ident(w.Canon(rcv)) + "." + callName(cc), c})
 			continue
 		}
+		// expand module callees that (transitively) write durably: controller commits and helpers
 		for _, cal := range w.Callees(c) {
-			if w.InModule(cal) && !inLedgerPkg(w, cal) && cal.Blocks != nil && callName(cc) == "Commit" {
-				out = append(out, w.durableSteps(cal, depth+1)...)
+			if w.InModule(cal) && !inLedgerPkg(w, cal) && cal.Blocks != nil && cal != fn {
+				if o := cal.Origin(); o != nil {
+					cal = o
+				}
+				for _, st := range w.durableSteps(cal, depth+1) {
+					// the step is attributed to the call site in the outermost function
+					out = append(out, durableStep{st.Name, pickSite(depth, c, st.In)})
+				}
 			}
 		}
 	}
 	return out
+}
+
+// pickSite: in the outermost function the step is located at the call through
+// which it is reached (so dominance against other steps of that function works).
+func pickSite(depth int, outer ssa.CallInstruction, inner ssa.Instruction) ssa.Instruction {
+	if depth == 0 {
+		return outer
+	}
+	return inner
 }
 
 func checkC08(w *World, r *Report) {
@@ -661,36 +742,55 @@ func checkC08(w *World, r *Report) {
 		}
 	}
 	// K-2 detection
-	reVer := mustRe(`^\(recv\.(\w+)\.Commit\(\)#1 != recv\.(\w+)\.Commit\(\)#1\)$`)
-	linked := map[string]string{}
+	// under "the versions returned by two controllers differ" no path may reach the
+	// commit point; the pairs for which that holds must connect all four controllers
+	cpEvent := func(in ssa.Instruction) string {
+		if c, ok := in.(ssa.CallInstruction); ok && callName(c.Common()) == "PutLastBlockContext" {
+			return "CP"
+		}
+		return ""
+	}
+	ctrlers := []string{"govCtrler", "acctCtrler", "stakeCtrler", "vmCtrler"}
+	parent := map[string]string{}
 	var find func(x string) string
 	find = func(x string) string {
-		if linked[x] == "" || linked[x] == x {
-			linked[x] = x
+		if parent[x] == "" || parent[x] == x {
+			parent[x] = x
 			return x
 		}
-		linked[x] = find(linked[x])
-		return linked[x]
+		parent[x] = find(parent[x])
+		return parent[x]
 	}
 	nVer := 0
-	okProt := idx >= 0
-	for _, g := range w.Guards(cm) {
-		m := reVer.FindStringSubmatch(g.Cond)
-		if m == nil {
-			continue
-		}
-		nVer++
-		linked[find(m[1])] = find(m[2])
-		if idx >= 0 && !g.Protects(steps[idx].In.Block()) {
-			okProt = false
+	for a := 0; a < len(ctrlers); a++ {
+		for b := a + 1; b < len(ctrlers); b++ {
+			f := AR(`\.`+ctrlers[a]+`\.Commit\(\)#1$`, "!=", `\.`+ctrlers[b]+`\.Commit\(\)#1$`)
+			fe := w.newFactEval(nil, f)
+			saved := w.branchMarkers
+			w.branchMarkers = false
+			paths, complete := w.enumPaths(cm, fe.eval, cpEvent, 4000)
+			w.branchMarkers = saved
+			reachesCP := !complete || len(fe.used) == 0
+			for _, p := range paths {
+				for _, e := range p.Events {
+					if e == "CP" {
+						reachesCP = true
+					}
+				}
+			}
+			if !reachesCP {
+				nVer++
+				parent[find(ctrlers[a])] = find(ctrlers[b])
+			}
 		}
 	}
 	allLinked := nVer >= 3
-	for _, c := range []string{"acctCtrler", "stakeCtrler", "vmCtrler"} {
-		if find(c) != find("govCtrler") {
+	for _, c := range ctrlers[1:] {
+		if find(c) != find(ctrlers[0]) {
 			allLinked = false
 		}
 	}
+	okProt := idx >= 0
 	r.Check(allLinked && okProt, "K-2", "RigoApp.Commit:version-equality", "unequal versions of the four controllers' stores panic before the last-block record is written", "RigoApp.Commit no longer refuses to record a block whose stores are at different versions", fnSite(w, cm))
 	for _, ref := range []fref{{"ctrlers/gov", "GovCtrler", "Commit"}, {pkgStake, "StakeCtrler", "Commit"}} {
 		fn := needFn(r, "K-2", w, ref)
